@@ -110,6 +110,25 @@ def sb128_corners(thorough=False, n=3):
     return cs
 
 
+def sb128_filters(thorough=False, n=3):
+    """128x128 superblocks with several superblocks per picture and content whose in-loop filter parameters vary from one 64x64 unit to the
+    next (per-quadrant CDEF strengths, loop-restoration units, delta LF): landscape / square pictures (the SVT decoder cannot decode portrait)"""
+    cs = []
+    for (w, h) in (((256, 256),) if not thorough else ((256, 256), (384, 256), (320, 192))):
+        for c in (("box", "screen") if not thorough else ("box", "screen", "noise", "binary")):
+            for pr, tpl in (((8, 1), (4, 0)) if not thorough else ((8, 1), (6, 1), (4, 0), (2, 0))):
+                for qp in ((30,) if not thorough else (20, 45)):
+                    cs.append(mk("sb128filters:preset=%d,tpl=%d,qp=%d/%dx%d/%s" % (pr, tpl, qp, w, h, c), w, h, n, c, enc_mode=pr, enable_tpl_la=tpl,
+                                 super_block_size=128, qp=qp))
+    return cs
+
+
+def profile_depth():
+    """the sequence header's profile / bit depth / chroma format coupling: every profile x bit depth the API has values for (whatever is
+    accepted must be a stream the reference decoders read as the same pictures)"""
+    return [mk("profile=%d,encoder_bit_depth=%d/64x64/grad" % (p, bd), 64, 64, 5, "grad", profile=p, encoder_bit_depth=bd) for p in (0, 1, 2) for bd in (8, 10)]
+
+
 def not_mult64(a):
     return int(a.get("w", 64)) % 64 != 0 or int(a.get("h", 64)) % 64 != 0
 
